@@ -396,7 +396,7 @@ func indexOf(s, sub string) int {
 func init() {
 	enumCheck("C18", "exploration",
 		func(q bool) []*EnumPlan {
-			return []*EnumPlan{{Name: "connection-lifetimes", Cases: c18Cases, Eval: evalC18}}
+			return []*EnumPlan{{Name: "connection-lifetimes", Cases: c18Cases, Eval: evalC18}, {Name: "connection-older-than-promotion", Cases: c18PromCases, Eval: evalC18Prom}}
 		}, nil,
 		"every connection lifetime from the product: binary / text, with / without INIT(client id), 0..3 registered WILL commands (lock, second lock on the same key, unlock of the own hold), a hold and a queued request left behind, ended by client close / protocol error / CLIENT KILL, ended before the queued request's grant / on its timeout tick / after its timeout, without reconnect or with a reconnect under the same client id before / after the late reply; each run on a full node next to an observer connection; oracle: no will runs before the close, each will exactly once and in registration order afterwards, the left hold stays until expiry, the queued request ends, no frame with a foreign RequestId on the observer, the late grant reply reaches a reconnected client with the same id, and the node drains to zero",
 		[]string{"handlers run under the default schedule; the close instant is enumerated at three positions relative to the queued request's timeout", "text connections: wills via the WILL option, no client ids"})
